@@ -258,7 +258,7 @@ func (s *Sched) Run(ch Chooser) {
 			if op == OpCond {
 				// evaluated while every thread is parked or blocked: the predicate may read private
 				// state of the objects under test without racing with them
-				if p := th.pred.Load(); p == nil || (*p)() {
+				if p := th.pred.Load(); p == nil || callPred(p) {
 					enabled = append(enabled, cand{th, op, addr})
 				}
 				continue
@@ -396,3 +396,9 @@ func WaitUntil(pred func() bool) {
 	th.state.Store(0)
 	raceEnable()
 }
+
+// callPred loads the predicate without race instrumentation (it was stored by the waiting thread;
+// the hand-over goes through the scheduler's hidden atomics).
+//
+//go:norace
+func callPred(p *func() bool) bool { return (*p)() }
